@@ -1,0 +1,6 @@
+//go:build !verif
+// +build !verif
+
+package crdt
+
+func verifHook(ev string, kv ...interface{}) {}
